@@ -30,6 +30,8 @@ pub struct Prefix {
     pub runs: Vec<Outcome>,
     /// per transition: the call that performed it returned a path
     pub ok_at: Vec<bool>,
+    /// per transition: the user's checker unwound inside the call that performed it
+    pub unwound: Vec<bool>,
 }
 
 fn set_budget(scn: &mut Scenario, ci: usize, n: u64) {
@@ -94,7 +96,8 @@ pub fn prefix_replay(scn: &Scenario, n: u64) -> Option<Prefix> {
             *x = true;
         }
     }
-    Some(Prefix { snaps, last, iters, setup_ev, solve_ci, deterministic, runs, ok_at })
+    let unwound = vec![false; ok_at.len()];
+    Some(Prefix { snaps, last, iters, setup_ev, solve_ci, deterministic, runs, ok_at, unwound })
 }
 
 /// *Stepwise* driver: one planner instance, `solve` called n times, each call given exactly one
@@ -114,6 +117,7 @@ pub fn stepwise(scn: &Scenario, n: u64) -> Option<Prefix> {
     let mut snaps = vec![out.calls.get(setup_ci)?.snap.clone()?];
     let mut iters = vec![];
     let mut ok_at = vec![];
+    let mut unwound = vec![];
     let mut last_ci = setup_ci;
     for ci in setup_ci + 1..out.calls.len() {
         if !matches!(s.calls[ci], CallSpec::Solve { .. }) {
@@ -130,13 +134,15 @@ pub fn stepwise(scn: &Scenario, n: u64) -> Option<Prefix> {
         iters.push((lo, c.ev_hi));
         last_ci = ci;
         ok_at.push(matches!(c.res, Res::Path(_)));
-        // a returned path does not end the history: the caller solves again on the kept tree
-        if !matches!(c.res, Res::Err(crate::sim::ErrKind::Timeout) | Res::Path(_)) {
+        unwound.push(matches!(c.res, Res::UserPanic));
+        // a returned path does not end the history: the caller solves again on the kept tree;
+        // nor does an injected unwinding of the user's checker (the caller caught it)
+        if !matches!(c.res, Res::Err(crate::sim::ErrKind::Timeout) | Res::Path(_) | Res::UserPanic) {
             break;
         }
     }
     let setup_ev = out.calls[setup_ci].ev_lo;
-    Some(Prefix { snaps, last: out.clone(), iters, setup_ev, solve_ci: last_ci, deterministic: true, runs: vec![out], ok_at })
+    Some(Prefix { snaps, last: out.clone(), iters, setup_ev, solve_ci: last_ci, deterministic: true, runs: vec![out], ok_at, unwound })
 }
 
 // ------------------------------------------------------------------------------------------
@@ -487,6 +493,30 @@ impl Check for TreeProp {
             scn.params.insert("obstacle_free".into(), 0.0);
             return scn;
         }
+        if index % 10 == 6 {
+            // stepwise history in which the user's checker unwinds out of one iteration (see
+            // checks::panic_resume and unwound_step); the iterations after it are judged by the
+            // ordinary step rules
+            let o2 = GenOpts { families: vec!["balls", "balls", "thin_wall", "slivers", "open", "shell_door"], min_frac: 0.01, ..Default::default() };
+            let mut scn = crate::checks::panic_resume(self.id, seed, index, o2);
+            if self.id == "C17" {
+                scn.planner.kind = PlannerKind::RRTStar;
+            }
+            let n: u64 = scn.calls.iter().map(|c| if let CallSpec::Solve { stalls, .. } = c { stalls.first().map(|s| s.nth).unwrap_or(0) } else { 0 }).sum();
+            scn.params.insert("stepwise".into(), 1.0);
+            scn.params.insert("depth".into(), n.max(3) as f64);
+            scn.params.insert("obstacle_free".into(), if scn.worlds[0].obstacles.is_empty() { 1.0 } else { 0.0 });
+            return scn;
+        }
+        if self.id == "C15" && index % 10 == 8 {
+            // the user's checker unwinds inside a solve, the caller goes on (see
+            // checks::panic_resume): the complete trees after every call, the interrupted one
+            // included, must be well-formed
+            let o2 = GenOpts { families: vec!["balls", "balls", "thin_wall", "slivers", "open", "shell_door"], min_frac: 0.01, ..Default::default() };
+            let mut scn = crate::checks::panic_resume(self.id, seed, index, o2);
+            scn.params.insert("history".into(), 1.0);
+            return scn;
+        }
         if self.id == "C15" && index % 4001 == 17 {
             let mut scn = crate::checks::ultra_fine(self.id, seed, index);
             scn.params.insert("depth".into(), 2.0);
@@ -585,7 +615,12 @@ impl Check for TreeProp {
             // sampler fail on exactly the draw made by one of the setup calls (found with a dry
             // run, see eval_history). Whatever setup does about it (today it panics, which is
             // C08's subject), no later tree may be rooted at anything but a goal sample.
-            if kind == PlannerKind::RRTConnect && rng.chance(0.33) {
+            // a fifth of the histories: the goal sampler fails at some draw INSIDE a solve. Today
+            // the planner panics there (C08's known finding; the history ends); a planner that
+            // returns an error instead must leave well-formed trees behind for the next call.
+            if rng.chance(0.2) {
+                scn.faults.push(crate::spec::FaultSpec::GoalSamplerErr { at_call: 2 + rng.below(12) });
+            } else if kind == PlannerKind::RRTConnect && rng.chance(0.33) {
                 let setups = scn.calls.iter().filter(|c| matches!(c, CallSpec::Setup { .. })).count() as u64;
                 scn.params.insert("goal_sampler_fails_in_setup".into(), rng.below(setups) as f64);
             }
@@ -722,6 +757,14 @@ impl Check for TreeProp {
             if added {
                 rep.probe("node_added");
             }
+            if px.unwound.get(i) == Some(&true) {
+                rep.probe("unwound_iteration");
+                if let Err(x) = self.unwound_step(&cx, &px, i, lo, hi) {
+                    v.push(x);
+                    break;
+                }
+                continue;
+            }
             let r = match self.id {
                 "C15" => self.c15_step(&cx, &px, i, lo, hi, &mut rep),
                 "C16" => self.c16_step(&cx, &px, i, lo, hi, &mut rep),
@@ -749,6 +792,53 @@ impl Check for TreeProp {
 }
 
 impl TreeProp {
+    // --------------------------------------------------------------------------------------
+    // An iteration the user's checker unwound out of (the caller caught it and goes on): the
+    // step rules of the property do not describe a half-done iteration, but what it leaves in the
+    // trees must be something a completed validation put there — every node that is new has a
+    // parent that was there, is valid, and its edge is covered by validity queries accepted
+    // during this very iteration; nothing that was there is lost; there is still one root.
+
+    fn unwound_step(&self, cx: &Ctx, px: &Prefix, i: usize, lo: usize, hi: usize) -> Result<(), Violation> {
+        let g = &cx.ev.geo;
+        let id = self.id;
+        let it = i + 1;
+        let acc: Vec<&St> = px.last.log[lo..hi].iter().filter_map(|e| if let Ev::Valid(s, true) = e { Some(s) } else { None }).collect();
+        let n_trees = if matches!(px.snaps[i], Snap::Connect(..)) { 2 } else { 1 };
+        for ti in 0..n_trees {
+            let (t0, t1) = (tree_of(&px.snaps[i], ti), tree_of(&px.snaps[i + 1], ti));
+            if t1.len() < t0.len() {
+                return Err(viol(id, format!("{id}/unwound_iteration/nodes_lost"), format!("iteration {it} (checker unwound): tree {ti} shrank from {} to {} nodes", t0.len(), t1.len())));
+            }
+            for (j, node) in t1.iter().enumerate() {
+                let Some(p) = node.1 else {
+                    if j != 0 {
+                        return Err(viol(id, format!("{id}/unwound_iteration/second_root"), format!("iteration {it} (checker unwound): node {j} of tree {ti} {} was left without a parent", fmt_state(&node.0))));
+                    }
+                    continue;
+                };
+                if j < t0.len() && t0[j].1 == Some(p) {
+                    continue;
+                }
+                // a new node, or an old one with a new parent (RRT* rewiring before the unwinding)
+                if p >= t1.len() || p == j {
+                    return Err(viol(id, format!("{id}/unwound_iteration/parent_out_of_range"), format!("iteration {it} (checker unwound): node {j} has parent {p}")));
+                }
+                if !g.valid(cx.w, &node.0) {
+                    return Err(viol(id, format!("{id}/unwound_iteration/invalid_node"), format!("iteration {it} (checker unwound): node {j} {} is rejected by the checker", fmt_state(&node.0))));
+                }
+                if let Some((gap, _)) = cx.ev.coverage_gap(&acc, &t1[p].0, &node.0) {
+                    return Err(viol(
+                        id,
+                        format!("{id}/unwound_iteration/unvalidated_edge"),
+                        format!("iteration {it} (checker unwound): edge {p}->{j} of tree {ti} was left in the tree with a stretch of {gap} that no accepted validity query of the iteration covers"),
+                    ));
+                }
+            }
+        }
+        Ok(())
+    }
+
     // --------------------------------------------------------------------------------------
     // C15 on API histories: the complete trees after every solve call
 
@@ -1287,6 +1377,9 @@ impl TreeProp {
                 len += g.d(&t1[p].0, &t1[cur].0);
                 cur = p;
                 steps += 1;
+            }
+            if cur != 0 {
+                return Err(viol("C17", sig("branch_does_not_reach_start"), format!("iteration {it}: the branch of node {j} ends at parentless node {cur}, not at the root")));
             }
             if t1[j].2 < len - rel(len) * 1e3 - cx.tol(len) {
                 return Err(viol("C17", sig("cost_below_branch_length"), format!("iteration {it}: node {j} records cost {} but its branch is {len} long", t1[j].2)));
